@@ -95,11 +95,29 @@ pub fn main(tier: Tier, seed: u64) -> i32 {
         }
         let ands = cfg.case.circ.and_count();
         for g in (0..ands).filter(|g| ands <= 64 || [0, 999, 1000, ands - 1].contains(g)) {
-            tap_cases.push((ci, g));
+            tap_cases.push((ci, g, usize::MAX));
+            // the same with the list of MACs inside the rows cut short: no entry for the evaluator
+            // (keep = p_eval entries), or none at all; the share must then count as unauthenticated
+            if ands <= 64 {
+                for keep in [0usize, cfg.case.p_eval] {
+                    tap_cases.push((ci, g, keep));
+                }
+            }
         }
     }
-    let tap_res = par_map(&tap_cases, |w, _, (ci, g)| {
+    let tap_res = par_map(&tap_cases, |w, _, (ci, g, keep)| {
         let cfg = &cfgs[*ci];
+        let keep = *keep;
+        let cut = TapSpec {
+            party: cfg.corrupted,
+            name: "garble_macs_keep".into(),
+            occ: Some(*g),
+            f: Arc::new(move |h: &mut Hook<'_>| {
+                if let Hook::Usizes(v) = h {
+                    v[0] = keep;
+                }
+            }),
+        };
         let tap = TapSpec {
             party: cfg.corrupted,
             name: "garble_r".into(),
@@ -110,18 +128,18 @@ pub fn main(tier: Tier, seed: u64) -> i32 {
                 }
             }),
         };
-        run_faults(cfg, vec![], vec![tap], false, w).0
+        run_faults(cfg, vec![], if keep == usize::MAX { vec![tap] } else { vec![tap, cut] }, false, w).0
     });
     let mut tap_detected = 0;
-    for ((ci, g), r) in tap_cases.iter().zip(tap_res.iter()) {
+    for ((ci, g, keep), r) in tap_cases.iter().zip(tap_res.iter()) {
         let cfg = &cfgs[*ci];
         let ev = cfg.case.p_eval;
         match r.outcomes[ev].0.as_str() {
             "Err" => tap_detected += 1,
             other => rep.violation(
                 "undetected:garbled_share_bit",
-                format!("{}: garbler {} flips its AND-share bit of gate {g} before row construction -> evaluator {other}({})", cfg.name, cfg.corrupted, r.outcomes[ev].1),
-                json!({"kind":"tap","case":cfg.case,"corrupted":cfg.corrupted,"seed":cfg.seed,"tap":"garble_r","occ":g}),
+                format!("{}: garbler {} flips its AND-share bit of gate {g} before row construction{} -> evaluator {other}({})", cfg.name, cfg.corrupted, if *keep == usize::MAX { String::new() } else { format!(" and keeps only {keep} entries of the MAC list inside the rows") }, r.outcomes[ev].1),
+                json!({"kind":"tap","case":cfg.case,"corrupted":cfg.corrupted,"seed":cfg.seed,"tap":"garble_r","occ":g,"garble_macs_keep":keep}),
             ),
         }
     }
@@ -186,7 +204,7 @@ pub fn main(tier: Tier, seed: u64) -> i32 {
     rep.set("trivial_cases", json!(j.trivial));
     rep.set("tap_cases", json!(tap_cases.len()));
     rep.set("configurations", json!(cfgs.iter().map(|c| c.name.clone()).collect::<Vec<_>>()));
-    rep.rule = "online-phase messages of the corrupted party (wire shares, masked inputs, labels, preprocessed gates, output wire shares, lambda, broadcast echo): every field x position (quick: first/middle/last of long vectors) x {xor low bit, xor top bit, flip bool, Some->None; thorough adds set-zero/ones and every index}; n=3: to one recipient and consistently to all; plus the garbled-share tap per AND gate; plus a 1100-AND circuit (two chunks of garbled gates) with faults in the second chunk's message and taps at gates 0, 999, 1000, 1099. n=2: the victim is handed its own 'wire shares' / 'masked inputs' / 'output wire shares' message back (rushing peer). Oracle: the honest consumer returns Err. trivial = unread by design (inactive row, label not feeding an AND gate) or an input substitution (consistent change of the own masked input); distinct = (configuration, label/field, recipients, position)".into();
+    rep.rule = "online-phase messages of the corrupted party (wire shares, masked inputs, labels, preprocessed gates, output wire shares, lambda, broadcast echo): every field x position (quick: first/middle/last of long vectors) x {xor low bit, xor top bit, flip bool, Some->None; thorough adds set-zero/ones and every index}; n=3: to one recipient and consistently to all; plus the garbled-share tap per AND gate, alone and with the MAC list inside the rows cut to 0 / p_eval entries; plus a 1100-AND circuit (two chunks of garbled gates) with faults in the second chunk's message and taps at gates 0, 999, 1000, 1099. n=2: the victim is handed its own 'wire shares' / 'masked inputs' / 'output wire shares' message back (rushing peer). Oracle: the honest consumer returns Err. trivial = unread by design (inactive row, label not feeding an AND gate) or an input substitution (consistent change of the own masked input); distinct = (configuration, label/field, recipients, position)".into();
     rep.assumptions = vec![
         "a tampered value is counted only if it differs from the honest one; random MAC/AEAD forgeries are treated as impossible".into(),
         "active garbled row determined by trial: tampering an inactive row leaves everything the honest parties send and return identical".into(),
